@@ -251,7 +251,7 @@ func (m *urlModule) createURLPrototype() *goja.Object {
 		return u.url.Host
 	}, func(u *nodeURL, arg goja.Value) {
 		host := arg.String()
-		if _, err := url.ParseRequestURI(u.url.Scheme + "://" + host); err == nil {
+		if pu, err := url.ParseRequestURI(u.url.Scheme + "://" + host); err == nil && pu.Host == host {
 			u.url.Host = host
 			dropDefaultPort(u.url)
 			m.fixURL(u.url)
@@ -280,7 +280,7 @@ func (m *urlModule) createURLPrototype() *goja.Object {
 		if strings.IndexByte(h, ':') >= 0 {
 			return
 		}
-		if _, err := url.ParseRequestURI(u.url.Scheme + "://" + h); err == nil {
+		if pu, err := url.ParseRequestURI(u.url.Scheme + "://" + h); err == nil && pu.Host == h {
 			if port := u.url.Port(); port != "" {
 				u.url.Host = h + ":" + port
 			} else {
